@@ -62,7 +62,13 @@ def make_case(rng, i, tier):
     soup = None
     if rng.random() < 0.12:
         soup = [["on", 0, 60, 9], ["wait", rng.randint(1, max(1, cap))], ["on", 0, 60, 9], ["off", 0, 61], ["wait", 3]]
-    return {"seq": spec, "num": num, "den": den, "key": rng.choice(gen.KEYS + [None, None]), "length": length,
+    motif = None
+    if rng.random() < 0.12:
+        # the same motif concatenated by reference several times (the library's own concatenate / Bar.to_sequence share
+        # message objects): a legal sequence in which one Message object occurs more than once
+        ml = rng.choice([12, 24, 36])
+        motif = {"spec": {"notes": [[0, 64, 0, rng.choice([6, 12]), 80]], "extra": [], "pad": ml, "start": "rel"}, "times": rng.randint(2, 5)}
+    return {"seq": spec, "num": num, "den": den, "key": rng.choice(gen.KEYS + [None, None]), "length": length, "motif": motif,
             "sigmode": sigmode, "soup": soup,
             "prefix": [op for op in random_prefix(rng, n=(1, 2)) if op["op"] not in ("scale", "pad")] if i % 4 == 3 else []}
 
@@ -75,6 +81,12 @@ def run(case, ctx):
     num, den = case["num"], case["den"]
     cap = Fraction(96 * num, den)
     s = gen.raw_rel_seq(case["soup"]) if case["soup"] else gen.build_seq(case["seq"])
+    if case.get("motif"):
+        from scoda.sequences.sequence import Sequence
+        m0 = gen.build_seq(case["motif"]["spec"])
+        s = Sequence()
+        s.concatenate([m0] * case["motif"]["times"])
+        LOG.n("c10.motif_by_reference")
     s = apply_prefix(s, case.get("prefix", []))
     o = obs(s)
     dur = o["dur"]
